@@ -49,6 +49,13 @@ Theorem C13_date_midnight_refuted :
 Proof. exact local_date_midnight_refuted. Qed.
 Print Assumptions C13_date_midnight_refuted.
 
+(* the zone hypothesis is DECIDABLE on transition tables: every offset within +-B, transitions more than 2B apart.  Every
+   table the harness extracts from Go is checked with B = 16 h by kernel evaluation in the case files (CZoneOK), so for
+   each zone of the run the hypothesis of the theorems above is established, not assumed. *)
+Theorem C13_table_window : forall B z, table_ok B z = true -> forall u, window (off_table z) B u.
+Proof. exact table_window. Qed.
+Print Assumptions C13_table_window.
+
 (* non-vacuity: the witness zone satisfies the zone hypothesis *)
 Example C13_ex_zone : forall u, window santiago_like 14400 u.
 Proof. exact santiago_like_window. Qed.
